@@ -87,11 +87,13 @@ impl Q {
     }
     /// the set of cached keys after the query does not depend on hash-set iteration order
     fn deterministic_footprint(&self) -> bool {
-        matches!(self, Q::Sup(_) | Q::ASup(_) | Q::Inh(_) | Q::Fits(..) | Q::Refl(_))
+        // tags / root tests / implementation / has_relationship reach the caches through `inheritance`, `fits` and
+        // `all_supertypes_of` in an order fixed by lists and BTreeMaps (their hash sets only collect results)
+        matches!(self, Q::Sup(_) | Q::ASup(_) | Q::Inh(_) | Q::Fits(..) | Q::Refl(_) | Q::Tags(_) | Q::FitsRoot(..) | Q::Impl(_) | Q::Rel(..))
     }
     /// the ORDER of cache operations does not depend on hash-set iteration order
     fn deterministic_order(&self) -> bool {
-        matches!(self, Q::Sup(_) | Q::ASup(_) | Q::Inh(_) | Q::Fits(..))
+        matches!(self, Q::Sup(_) | Q::ASup(_) | Q::Inh(_) | Q::Fits(..) | Q::Tags(_) | Q::FitsRoot(..) | Q::Impl(_) | Q::Rel(..))
     }
     fn write(&self, out: &mut Vec<String>) {
         let rec = |r: &RecSpec, out: &mut Vec<String>| {
@@ -886,11 +888,11 @@ fn check_caches_quiet(ns: Ns, o: &Oracle, out: &mut CaseOut) -> (String, String)
 fn exec_trace(src: &GraphSrc, o: &Oracle, budget: usize, qss: &[Vec<Q>], out: &mut CaseOut) {
     out.nontrivial = true;
     if !qss.iter().flatten().all(|q| q.deterministic_order()) {
-        out.fail("harness", "trace cases take sup/asup/inh/fits queries only".into());
+        out.fail("harness", "trace cases take queries with a deterministic order of cache operations only".into());
         return;
     }
     let mut reference = Reference { ns: src.fresh(), memo: Vec::new() };
-    let graph = c13::model_graph_tokens(src.rows());
+    let graph = c13::model_graph_tokens_x(src.rows());
     let threads = model_threads_tokens(qss);
     let mut stack: Vec<Vec<usize>> = vec![vec![]];
     let mut runs = 0usize;
@@ -912,7 +914,7 @@ fn exec_trace(src: &GraphSrc, o: &Oracle, budget: usize, qss: &[Vec<Q>], out: &m
         let mut st = vec![sched.len().to_string()];
         st.extend(sched.iter().map(|t| t.to_string()));
         out.req(
-            format!("C14 trace {graph} 1 {threads} {}", st.join(" ")),
+            format!("C14 tracex {graph} 1 {threads} {}", st.join(" ")),
             format!("ok {} | {} # {} # {}", events.join(","), thread_ans.join(";"), caches.0, caches.1),
         );
     };
@@ -1061,6 +1063,7 @@ const MODELLED_DET: &[u64] = &[0, 1, 1, 2, 2, 2, 3, 3, 4];
 const MODELLED: &[u64] = &[0, 1, 2, 2, 3, 3, 4, 5, 5];
 const ALL_KINDS: &[u64] = &[0, 1, 2, 2, 3, 3, 4, 5, 6, 6, 7, 8, 8, 9, 10];
 const ORDERED: &[u64] = &[0, 1, 2, 2, 3];
+const ORDERED_X: &[u64] = &[0, 1, 2, 3, 6, 7, 7, 8, 9];
 
 fn universe_of(o: &Oracle) -> Vec<String> {
     let mut s: BTreeSet<String> = o.is.keys().cloned().collect();
@@ -1110,12 +1113,55 @@ pub fn generate(ctx: &mut Ctx) {
         write_threads(qss, &mut t);
         emit(ctx, &format!("trace:{name}"), "trace", &GraphSrc::Rows(diamond.clone()), t);
     }
+    // the association / implementation / relationship queries at the hook points: the diamond with `tags` computed from
+    // `tagOn`, a mandatory def, a transitive relationship carried by a ref tag
+    {
+        let mut rows = diamond.clone();
+        rows.push(RowSpec::plain("association", vec![]));
+        rows.push(RowSpec::plain("relationship", vec![]));
+        rows.push(RowSpec::plain("tagOn", vec![some("association")]));
+        let mut tags = RowSpec::plain("tags", vec![some("association")]);
+        tags.extra = vec![("computedFromReciprocal".into(), ExtraV::Marker), ("reciprocalOf".into(), ExtraV::sym("tagOn"))];
+        rows.push(tags);
+        let mut p = RowSpec::plain("p", vec![]);
+        p.extra = vec![("tagOn".into(), ExtraV::List(vec![some("a")]))];
+        rows.push(p);
+        let mut cb = RowSpec::plain("containedBy", vec![some("relationship")]);
+        cb.extra = vec![("transitive".into(), ExtraV::Marker)];
+        rows.push(cb);
+        let mut xr = RowSpec::plain("xRef", vec![]);
+        xr.extra = vec![("containedBy".into(), ExtraV::sym("a"))];
+        rows.push(xr);
+        for r in rows.iter_mut() {
+            if matches!(&r.def, c13::DefTag::Sym(n) if n == "m") {
+                r.extra.push(("mandatory".into(), ExtraV::Marker));
+            }
+        }
+        let rec: RecSpec = vec![(s("d"), true), (s("xRef"), false)];
+        let fixed2: Vec<(&str, Vec<Vec<Q>>)> = vec![
+            ("tags_vs_inh", vec![vec![Q::Tags(s("d"))], vec![Q::Inh(s("d"))]]),
+            ("tags_tags", vec![vec![Q::Tags(s("d"))], vec![Q::Tags(s("e"))]]),
+            ("impl_vs_asup", vec![vec![Q::Impl(s("d"))], vec![Q::ASup(s("d"))]]),
+            ("froot_2", vec![vec![Q::FitsRoot(0, s("d"))], vec![Q::FitsRoot(0, s("d"))]]),
+            ("rel_vs_fits", vec![vec![Q::Rel(rec.clone(), s("containedBy"), Some(s("m")))], vec![Q::Fits(s("a"), s("m"))]]),
+            ("rel_rel", vec![vec![Q::Rel(rec.clone(), s("containedBy"), Some(s("a")))], vec![Q::Rel(rec.clone(), s("containedBy"), None)]]),
+        ];
+        for (name, qss) in &fixed2 {
+            let mut t = vec![(budget / 2).to_string()];
+            write_threads(qss, &mut t);
+            emit(ctx, &format!("trace:{name}"), "trace", &GraphSrc::Rows(rows.clone()), t);
+        }
+    }
     for i in 0..ctx.n(6, 60) {
-        let g = c13::gen_graph(&mut rng, 7);
+        let mut g = c13::gen_graph(&mut rng, 7);
+        if i % 2 == 1 {
+            add_rel_rows(&mut rng, &mut g);
+        }
         let o = Oracle::new(&g.rows);
         let uni = universe_of(&o);
         let nthreads = 2 + rng.below(2) as usize;
-        let qss: Vec<Vec<Q>> = (0..nthreads).map(|_| { let n = 1 + rng.below(2); gen_queries(&mut rng, &o, &uni, n, ORDERED) }).collect();
+        let kinds: &[u64] = if i % 2 == 1 { ORDERED_X } else { ORDERED };
+        let qss: Vec<Vec<Q>> = (0..nthreads).map(|_| { let n = 1 + rng.below(2); gen_queries(&mut rng, &o, &uni, n, kinds) }).collect();
         let mut t = vec![(budget / 6).to_string()];
         write_threads(&qss, &mut t);
         emit(ctx, &format!("trace:rand{i}"), "trace", &GraphSrc::Rows(g.rows), t);
